@@ -74,6 +74,14 @@ def gen_families(chk, tier):
             ops.append(gen_operand(rng, center, spread))
         if i % 9 == 0:   # all-interval family: envelope is the interval hull
             ops = [{"kind": "interval", "lo": (a := pbx.dyadic(rng, -4, 4)), "hi": a + pbx.dyadic(rng, 0, 3)} for _ in range(size)]
+        if i % 9 == 4:   # two nearly equal p-boxes (a few parts per million apart, crossing each other): nothing may be treated as "equal"
+            kind = rng.choice(["pos", "straddle", "steps"])
+            L, R = pbx.gen_bounds(rng, 200, kind, scale=spread, dy=True)
+            L2 = [v - (3e-6 * abs(v) + 3e-9) * (1 if k % 2 else -1) for k, v in enumerate(L)]
+            R2 = [v + (3e-6 * abs(v) + 3e-9) * (1 if (k // 7) % 2 else -1) for k, v in enumerate(R)]
+            L2, R2 = sorted(L2), sorted(R2)
+            if all(a <= b for a, b in zip(L2, R2)):
+                ops = [{"kind": "pbox", "L": L, "R": R}, {"kind": "pbox", "L": L2, "R": R2}] + ops[2:]
         fams.append(ops)
     return fams
 
